@@ -214,10 +214,12 @@ impl<'a, T> DoubleEndedIterator for RowsMut<'a, T> {
         if adj >= self.v.len() || overflow {
             self.v = &mut [];
         } else {
+            // the new length must be computed before `self.v` is taken (and thereby emptied)
+            let new_len = self.v.len() - adj;
             let tmp = mem::take(&mut self.v);
             // adj < self.v.len(), so no check required
             unsafe {
-                self.v = tmp.get_unchecked_mut(..self.v.len() - adj);
+                self.v = tmp.get_unchecked_mut(..new_len);
             }
         }
         self.next_back()
@@ -467,10 +469,12 @@ impl<'a, T> DoubleEndedIterator for ColMut<'a, T> {
         if adj >= self.v.len() || overflow {
             self.v = &mut [];
         } else {
+            // the new length must be computed before `self.v` is taken (and thereby emptied)
+            let new_len = self.v.len() - adj;
             let tmp = mem::take(&mut self.v);
             // adj <= self.v.len(), so no check required
             unsafe {
-                self.v = tmp.get_unchecked_mut(..self.v.len() - adj);
+                self.v = tmp.get_unchecked_mut(..new_len);
             }
         }
         self.next_back()
